@@ -283,6 +283,8 @@ class PassData(MutableMapping[str, Any]):
             self._placement = copy.deepcopy(other._placement)
             self._data = copy.deepcopy(other._data)
             self._seed = copy.deepcopy(other._seed)
+            self._initial_mapping = copy.deepcopy(other._initial_mapping)
+            self._final_mapping = copy.deepcopy(other._final_mapping)
         else:
             self._target = copy.copy(other._target)
             self._error = copy.copy(other._error)
@@ -290,6 +292,8 @@ class PassData(MutableMapping[str, Any]):
             self._placement = copy.copy(other._placement)
             self._data = copy.copy(other._data)
             self._seed = copy.copy(other._seed)
+            self._initial_mapping = copy.copy(other._initial_mapping)
+            self._final_mapping = copy.copy(other._final_mapping)
 
     def update_error_mul(self, error: float) -> None:
         """Update the error multiplicatively."""
